@@ -1,6 +1,6 @@
 PROP = dict(
     gen=["charsets", "detect", "knownbad"],
-    proof_files=["Properties/C09.v", "Proofs/DetectProofs.v", "Proofs/DetectBits.v", "Proofs/CharsetProofs.v", "Proofs/CharsetRoundtrip.v", "Proofs/ComposePipeline.v", "Model/IntervalMap.v"],
+    proof_files=["Properties/C09.v", "Proofs/DetectProofs.v", "Proofs/DetectBits.v", "Proofs/CharsetProofs.v", "Proofs/CharsetRoundtrip.v", "Proofs/ComposePipeline.v", "Proofs/PipelineFull.v", "Model/IntervalMap.v"],
     model_files=["Model/Detect.v", "Model/Charset.v", "Model/Splitter.v", "Model/Compose.v", "Model/ComposePipeline.v"],
     trusted=["Gen/Detect.v is the complete per-rune tabulation of DataCoding.Validate (7 codings), BestCoding, BestSafeCoding, the GSM 7-bit "
              "encoder and the splitter widths over all 1,112,064 scalar values (dumper: harness/gen_detect.go); Gen/Charsets.v as for C17",
@@ -21,7 +21,7 @@ MANIFEST = dict(
     text="Theorems in coq/Properties/C09.v: for every scalar value r outside the committed known-bad set of the coding that BestCoding / BestSafeCoding "
          "returns, that coding's encoder accepts r and decode(encode r) = r; for every text the same (plus the GSM 03.38 trailing-CR exclusion); "
          "Compose/Parse of a text that fits; the pipeline BestCoding -> ComposeMultipartShortMessage never fails for lack of an encoding and its parts decode back to "
-         "pieces that join to the text (C09_pipeline_partial); the known-bad sets are tight (C09_known_bad_tight: subset of validate minus accept); refutation witnesses for the unrestricted statement (U+0100, a mixed text, GSM text ending in CR at 8k septets).",
+         "pieces that join to the text, and it is refused ONLY for more than 254 parts - never for size, never by divergence of Split (C09_pipeline, C09_pipeline_safe; from C09_width_tables: per detectable label every accepted character is charged at least the bits it occupies; the detectors never return ISO-2022-JP / EUC-JP: C09_detector_never_stateful); a successful single-message Compose stores at most 140 octets (C09_compose_fits); the known-bad sets are tight (C09_known_bad_tight: subset of validate minus accept); refutation witnesses for the unrestricted statement (U+0100, a mixed text, GSM text ending in CR at 8k septets).",
     note="Known findings: D17 (alphabet tables admit unencodable runes, 5 codings, pinned by TestBestCoding) and the GSM 7-bit 8k-septet trailing CR ambiguity. "
          "Trusted: Coq kernel + vm_compute; the Go table dumper; rune-wise independence of the codecs (validated by cases). No axioms.",
 )
